@@ -29,7 +29,7 @@ import (
 type C15Trial struct {
 	Cmd      string `json:"cmd"`   // submit | cancel | release | force-release | results
 	Conn     string `json:"conn"`  // unix | tcp | mesh
-	Type     string `json:"type"`  // vprod (verifying) | prod (non-verifying) | remote-signed | remote-plain | unknown
+	Type     string `json:"type"`  // vprod (verifying) | prod (non-verifying) | remote-signed | remote-plain | unknown | vprod-case (the verifying type's name in other capitalisation)
 	Token    string `json:"token"` // see tokenFor
 	JSONForm bool   `json:"json"`  // commands other than submit: JSON or plain string form (the plain form cannot carry a token)
 }
@@ -253,8 +253,8 @@ func execC15(b []byte) vx.Verdict {
 		// reference decision
 		want := 0 // +1 takes effect, -1 refused, 0 unconstrained
 		switch {
-		case t.Type == "unknown":
-			want = -1
+		case t.Type == "unknown" || t.Type == "vprod-case":
+			want = -1 // also the verifying type's name in other capitalisation: work type names are exact
 		case !expects && present && tok != "":
 			want = -1
 		case !expects:
@@ -273,7 +273,7 @@ func execC15(b []byte) vx.Verdict {
 		var id string
 		typ := t.Type
 		if t.Cmd != "submit" {
-			if typ == "unknown" {
+			if typ == "unknown" || typ == "vprod-case" {
 				typ = "prod" // a unit of an unknown type cannot be created; the command itself carries no type
 				expects = false
 				if present && tok != "" {
@@ -311,7 +311,7 @@ func execC15(b []byte) vx.Verdict {
 		detail := ""
 		switch t.Cmd {
 		case "submit":
-			req := map[string]interface{}{"node": "n0", "worktype": map[string]string{"vprod": "vprod", "prod": "prod", "unknown": "nosuchtype"}[t.Type]}
+			req := map[string]interface{}{"node": "n0", "worktype": map[string]string{"vprod": "vprod", "prod": "prod", "unknown": "nosuchtype", "vprod-case": "VProd"}[t.Type]}
 			switch t.Type {
 			case "remote-signed":
 				// a remote submission with signwork: the local node signs with its own key when it forwards; the command
